@@ -27,6 +27,7 @@ from geneticengine.algorithms.gp.operators.elitism import ElitismStep
 from geneticengine.algorithms.gp.operators.mutation import GenericMutationStep
 from geneticengine.algorithms.gp.operators.novelty import NoveltyStep
 from geneticengine.algorithms.gp.operators.selection import TournamentSelection
+from geneticengine.evaluation.budget import TargetMultiFitness, TargetMultiSameFitness, TimeBudget  # noqa: E402
 from geneticengine.evaluation.budget import EvaluationBudget, TargetFitness, AnyOf
 from geneticengine.evaluation.sequential import SequentialEvaluator
 from geneticengine.evaluation.parallel import ParallelEvaluator
@@ -125,9 +126,20 @@ def algorithm_run(R, alg, hist, mode, mini, multi, budget_kind, n, repkind, gp_s
         inner = EvaluationBudget(n)
     elif budget_kind == "target":
         inner = TargetFitness(target)
+    elif budget_kind == "time":
+        # virtual time: the tracker's clock advances by one second per fitness invocation (patched below), so a
+        # time budget of n - 0.5 seconds is met exactly when n invocations have been made
+        inner = TimeBudget(n - 0.5)
+    elif budget_kind == "mtarget":      # multi-objective targets, one per component; in a disjunction so that runs end
+        inner = AnyOf(TargetMultiFitness([float(t) for t in target]), EvaluationBudget(n))
+    elif budget_kind == "msame":
+        inner = AnyOf(TargetMultiSameFitness(float(target[0])), EvaluationBudget(n))
     else:
         inner = AnyOf(TargetFitness(target), EvaluationBudget(n))
-    budget = RecordingBudget(inner, events, target=target, ffcount=lambda: ff.k)
+    if budget_kind in ("mtarget", "msame"):
+        budget = RecordingBudget(inner, events, ffcount=lambda: ff.k, mtargets=[float(t) for t in target])
+    else:
+        budget = RecordingBudget(inner, events, target=target, ffcount=lambda: ff.k)
     if alg == "RS":
         a = RandomSearch(problem, budget, rep, rs, tracker)
         fb = b = 1
@@ -142,6 +154,11 @@ def algorithm_run(R, alg, hist, mode, mini, multi, budget_kind, n, repkind, gp_s
         fb = b = pop
     cfg = base_cfg(mini, multi, alg, fb, b, n, budget_kind)
     cfg["step"] = gp_step if alg == "GP" else "-"
+    import geneticengine.evaluation.tracker as _trk
+    real_clock = _trk.monotonic_ns
+    if budget_kind == "time":
+        tracker.start_time = 0
+        _trk.monotonic_ns = lambda: ff.k * 10 ** 9
     try:
         with time_limit(20):
             r = a.search()
@@ -150,6 +167,10 @@ def algorithm_run(R, alg, hist, mode, mini, multi, budget_kind, n, repkind, gp_s
         pass
     except HangTimeout:
         events.append({"e": "lasso", "checks": 0, "ffs": 1})
+    except Exception as e:          # a search given a valid budget must not raise
+        events.append({"e": "runfail", "exc": type(e).__name__})
+    finally:
+        _trk.monotonic_ns = real_clock
     return events, cfg
 
 
@@ -281,7 +302,7 @@ def main():
         mode = "scripted" if ri % 3 else "table"
         if mode == "table" and not multi:
             h = [[x] for x in (5, 1, 9, 3, 11, 7, 2, 12, 4, 10, 6, 8)]
-        bk = "eval" if multi else ["eval", "eval", "target", "anyof"][ri % 4 if ri % 8 < 4 else 0]
+        bk = "eval" if multi else ["eval", "time", "target", "anyof"][ri % 4 if ri % 8 < 4 else (ri // 8) % 2]
         n = R.randint(1, 12 if quick else 40)
         target = R.choice([1, 2, 3]) if bk != "eval" else None
         if bk == "target":
@@ -290,6 +311,12 @@ def main():
             vals = [x[0] for x in h]
             target = min(vals) if mini[0] else max(vals)
             mode = "scripted"
+        if multi:
+            bk = ["eval", "mtarget", "msame"][(ri // 7) % 3]
+            if bk == "mtarget":
+                target = list(R.choice(h))                      # a vector the history really contains
+            elif bk == "msame":
+                target = [R.choice(h)[0]] * 2
         ev, cfg = algorithm_run(R, alg, h, mode, mini, multi, bk, n, "tree" if ri % 3 else "ge",
                                 gp_step=steps[(ri // 4) % len(steps)], pop=R.choice([2, 3, 4, 5, 8]), k=R.choice([1, 3, 5]),
                                 target=target)
